@@ -1,0 +1,6 @@
+//go:build !verif
+
+package io
+
+// VerifWrite is a no-op outside verification builds.
+func VerifWrite(kind string, off int64, b []byte) (int, error, bool) { return 0, nil, false }
